@@ -400,6 +400,9 @@ func runBlackbox(c *hx.Ctx, r *hx.Rng, nSets, nq int) error {
 		h.maxDen = int64(len(d.logical) + 8)
 		for j := 0; j < nq; j++ {
 			q := genQuery(r, d)
+			if q.outside() != "" {
+				continue // the recorded findings outside the subset are exercised in-process
+			}
 			want := oracle(q, d).text()
 			var first string
 			var raws []string
